@@ -139,9 +139,14 @@ func (i *Instance) ApplyAppSchema(jsonPayload []byte) error {
 		return fmt.Errorf("unable to build a jbtf decoder: %w", err)
 	}
 
-	i.nodeIDs = make(map[nodes.Node]string)
-	i.metadata = sync.NewNestedSyncMap()
-	i.metadata.OverwriteData(appSchema.Metadata)
+	// The new graph is put together on the side and only replaces the current
+	// one once all of it has loaded. A file that turns out to be unusable half
+	// way through (unknown node type, connection to a node that isn't in the
+	// file, parameter data of the wrong type) then leaves the instance as it
+	// was, instead of with its nodes gone and part of the new ones in place.
+	nodeIDs := make(map[nodes.Node]string)
+	metadata := sync.NewNestedSyncMap()
+	metadata.OverwriteData(appSchema.Metadata)
 
 	createdNodes := make(map[string]nodes.Node)
 
@@ -156,7 +161,7 @@ func (i *Instance) ApplyAppSchema(jsonPayload []byte) error {
 			panic(fmt.Errorf("graph definition contained type that instantiated a non node: %s", instanceDetails.Type))
 		}
 		createdNodes[nodeID] = casted
-		i.nodeIDs[casted] = nodeID
+		nodeIDs[casted] = nodeID
 	}
 
 	// Connect the nodes we just created
@@ -164,7 +169,13 @@ func (i *Instance) ApplyAppSchema(jsonPayload []byte) error {
 		node := createdNodes[nodeID]
 		for _, dependency := range instanceDetails.Dependencies {
 
-			outNode := createdNodes[dependency.DependencyID]
+			outNode, ok := createdNodes[dependency.DependencyID]
+			if !ok {
+				return fmt.Errorf(
+					"input %q of node %q is connected to node %q, which the graph does not contain",
+					dependency.Name, nodeID, dependency.DependencyID,
+				)
+			}
 			outPortVals := refutil.CallFuncValuesOfType(outNode, dependency.DependencyPort)
 			ref := outPortVals[0].(nodes.NodeOutputReference)
 
@@ -175,15 +186,21 @@ func (i *Instance) ApplyAppSchema(jsonPayload []byte) error {
 	}
 
 	// Set the Producers
-	i.producers = make(map[string]nodes.NodeOutput[artifact.Artifact])
+	producers := make(map[string]nodes.NodeOutput[artifact.Artifact])
 	for fileName, producerDetails := range appSchema.Producers {
-		producerNode := createdNodes[producerDetails.NodeID]
+		producerNode, ok := createdNodes[producerDetails.NodeID]
+		if !ok {
+			return fmt.Errorf(
+				"producer %q refers to node %q, which the graph does not contain",
+				fileName, producerDetails.NodeID,
+			)
+		}
 		outPortVals := refutil.CallFuncValuesOfType(producerNode, producerDetails.Port)
 		ref := outPortVals[0].(nodes.NodeOutput[artifact.Artifact])
 		if ref == nil {
 			panic(fmt.Errorf("REF IS NIL FOR FILE %s (node id: %s) and port %s", fileName, producerDetails.NodeID, producerDetails.Port))
 		}
-		i.producers[fileName] = ref
+		producers[fileName] = ref
 	}
 
 	// Set Parameters
@@ -197,6 +214,9 @@ func (i *Instance) ApplyAppSchema(jsonPayload []byte) error {
 		}
 	}
 
+	i.nodeIDs = nodeIDs
+	i.metadata = metadata
+	i.producers = producers
 	i.incModelVersion()
 
 	return nil
